@@ -266,9 +266,25 @@ def run(prop, tier, seed, replay, obligations_extra=()):
 
         shrunk = pk.ddmin(list(sc.ops), differing, budget=120)
         s2 = run_model(run_impl(binpath, Scenario("shrunk", shrunk)), fields)
-        # search: more scenarios, oracle only
         found = None
-        for j in range(150 if not thorough else 1500):
+        # search 1: the differing scenarios themselves, cut right after the first differing event (and whole),
+        # followed by `settle` (all parked jobs delivered, quiescence oracles evaluated): a difference that later
+        # operations happen to heal is often a violation when nothing else follows
+        for dsc in [Scenario("shrunk", shrunk)] + diffs[:8]:
+            dd = (run_model(run_impl(binpath, dsc), fields).diff if dsc.name == "shrunk" else dsc.diff)
+            cuts = [len(dsc.ops)]
+            if dd is not None and isinstance(dd[0], int):
+                cuts = [dd[0] + 1, dd[0] + 2, len(dsc.ops)]
+            for c in cuts:
+                s3 = run_impl(binpath, Scenario("search-settle", list(dsc.ops[:c]) + ["settle"]))
+                events += len(s3.lines)
+                if complaints_for(s3, prop) or s3.error:
+                    found = s3
+                    break
+            if found is not None:
+                break
+        # search 2: more scenarios, oracle only
+        for j in range(0 if found is not None else (150 if not thorough else 1500)):
             s3 = run_impl(binpath, Scenario("search", gen_scenario(binpath, seed * 7919 + 500000 + j, nops)))
             events += len(s3.lines)
             if complaints_for(s3, prop) or s3.error:
